@@ -183,13 +183,13 @@ theorem slices4 (a b c d : Bytes) (ha : a.length = 32) (hb : b.length = 32) (hc 
 point; its four coordinate fields are the coordinates -/
 theorem g2_round (x y : F2) (hxa : x.a < p) (hxb : x.b < p) (hya : y.a < p) (hyb : y.b < p)
     (hc : onCurveAff B2 x y = true) :
-    implG2Bytes (g2BytesOfAffine x y) = .ok (.aff x y) ∧
+    implG2BytesInf (g2BytesOfAffine x y) = .ok (.aff x y) ∧
     (beNat (slice (g2BytesOfAffine x y) 0 32) < p ∧ beNat (slice (g2BytesOfAffine x y) 32 32) < p ∧
      beNat (slice (g2BytesOfAffine x y) 64 32) < p ∧ beNat (slice (g2BytesOfAffine x y) 96 32) < p) := by
   obtain ⟨s0, s1, s2, s3, hlen⟩ := slices4 (toBE 32 (x.a % p)) (toBE 32 (x.b % p)) (toBE 32 (y.a % p))
     (toBE 32 (y.b % p)) (length_toBE _ _) (length_toBE _ _) (length_toBE _ _) (length_toBE _ _)
   constructor
-  · unfold implG2Bytes
+  · unfold implG2BytesInf
     simp only [g2BytesOfAffine, hlen, ne_eq, not_true_eq_false, if_false, s0, s1, s2, s3]
     rw [Nat.mod_eq_of_lt hxa, Nat.mod_eq_of_lt hxb, Nat.mod_eq_of_lt hya, Nat.mod_eq_of_lt hyb,
       beNat_toBE32 _ hxa, beNat_toBE32 _ hxb, beNat_toBE32 _ hya, beNat_toBE32 _ hyb,
@@ -199,5 +199,31 @@ theorem g2_round (x y : F2) (hxa : x.a < p) (hxb : x.b < p) (hya : y.a < p) (hyb
     rw [Nat.mod_eq_of_lt hxa, Nat.mod_eq_of_lt hxb, Nat.mod_eq_of_lt hya, Nat.mod_eq_of_lt hyb,
       beNat_toBE32 _ hxa, beNat_toBE32 _ hxb, beNat_toBE32 _ hya, beNat_toBE32 _ hyb]
     exact ⟨hxa, hxb, hya, hyb⟩
+
+/-- the strict decoder accepts the encoding of every such point -/
+theorem g2_round_strict (x y : F2) (hxa : x.a < p) (hxb : x.b < p) (hya : y.a < p) (hyb : y.b < p)
+    (hc : onCurveAff B2 x y = true) : implG2Bytes (g2BytesOfAffine x y) = .ok (.aff x y) := by
+  unfold implG2Bytes
+  rw [(g2_round x y hxa hxb hya hyb hc).1]
+  simp
+
+/-- what the strict decoder accepts is the encoding of the value it returns -/
+theorem implG2Bytes_ok (bs : Bytes) (x y : F2) (h : implG2Bytes bs = .ok (.aff x y)) :
+    implG2BytesInf bs = .ok (.aff x y) ∧ g2BytesOfAffine x y = bs := by
+  unfold implG2Bytes at h
+  cases hi : implG2BytesInf bs with
+  | ok v =>
+    rw [hi] at h
+    cases v with
+    | inf => simp at h
+    | aff x' y' =>
+      simp only at h
+      split_ifs at h with he
+      obtain ⟨hx, hy⟩ := AffPt.aff.inj (Res.ok.inj h)
+      subst hx; subst hy
+      exact ⟨rfl, he⟩
+  | err => rw [hi] at h; simp at h
+  | panic => rw [hi] at h; simp at h
+  | dep => rw [hi] at h; simp at h
 
 end CL.Curve
